@@ -10,7 +10,7 @@ LEVEL = "exploration"
 RULE = ("inputs (<= 4 kB of UTF-8) come from (a) a generator DERIVED AT RUN TIME from the working tree's grammar.pest (every "
         "production, types ignored, identifiers biased toward names already used so that many inputs pass name resolution), (b) "
         "token-level mutation (delete / insert / duplicate / swap / replace by a grammar terminal, 1-4 edits) of the example "
-        "corpus and of well-typed generated programs, (c) an enumerated family of boundary shapes (deep nesting of every "
+        "corpus and of well-typed generated programs, (c) near-miss TYPE PAIRS: a random type T (primitives, open and fixed-shape lists, maps, optionals, function types, classes, aliases; depth <= 3), a type one structural edit away from it, and a value of the second supplied where the first is wanted (declaration, argument, re-assignment, return, `or` fallback, field, element, map value, comparison, index), (d) an enumerated family of boundary shapes (deep nesting of every "
         "bracketing construct, long operator chains, huge literals, unterminated tokens, import of odd paths). Oracle: `mscript "
         "compile f.ms --quick` exits 0, or exits 1 with diagnostics; exit 101 / a signal / a reproducible watchdog hit is a "
         "violation. Non-trivial = the input gets past the parser (no syntax diagnostic); distinct by input text")
@@ -111,7 +111,7 @@ def check(case):
     sc = make_scenario(text)
     res, fails, _ = scenario.execute(sc)
     r0 = res["compile"]
-    past_parser = r0.klass == "ok" or (r0.klass == "error" and "expected " not in r0.stdout) or r0.klass in ("panic", "signal")
+    past_parser = r0.klass == "ok" or (r0.klass == "error" and not re.search(r"^\s*= (expected|unexpected) ", r0.stdout, re.M)) or r0.klass in ("panic", "signal")
     stage = "accepted" if r0.klass == "ok" else ("semantic-diagnostic" if past_parser else "syntax-diagnostic")
     r = CaseResult(nt_keys=[text] if past_parser else [], labels=["family=" + case["family"], "stage=" + stage],
                    sample={"family": case["family"], "input": text[:300], "stage": stage})
@@ -155,8 +155,37 @@ def boundary_inputs():
     return out
 
 
+ATOMS = ["true", "false", "nil", "self", "Self", "1", "1.5", "B1", "0b1", "\"s\"", "[1]", "[1, \"a\"]", "map[str, int] {\"k\": 1}", "fn() { }", "fn() -> int { return 1 }",
+         "v", "o", "k", "K", "undeclared", "(v)", "v.x", "k.n", "typeof v"]
+INFIX = ["+", "-", "*", "/", "%", "<", "<=", ">", ">=", "==", "!=", "&&", "||", "^", "&", "|", "xor", "<<", ">>", "is", "?=", "+=", "-=", "*=", "/=", "%=", "="]
+MATRIX_PRE = "class K {\n\tn: int\n\tconstructor(self) {\n\t\tself.n = 1\n\t}\n}\nv = 1\no: int? = nil\nk = K()\n"
+
+
+def matrix_inputs():
+    """every infix operator x every ordered pair of atom shapes, every prefix / postfix operator x every atom shape. ONE
+    expression per input: the code generator only runs when the whole file is free of diagnostics, so batching would hide it"""
+    out = []
+    for op in INFIX:
+        for a in ATOMS:
+            for b in ATOMS:
+                e = "%s %s %s" % (a, op, b)
+                out.append(("matrix:infix:%s" % op, MATRIX_PRE + ("r = " + e if op != "=" else e) + "\n"))
+                if op in ("?=", "==", "is", "&&", "<"):
+                    out.append(("matrix:infix-cond:%s" % op, MATRIX_PRE + "if %s {\n}\n" % e))
+    for pre in ["-", "!", "get ", "typeof ", "return ", "assert ", "print ", "modify v = ", "export x = ", "const c = "]:
+        for a in ATOMS:
+            out.append(("matrix:prefix:%s" % pre.strip(), MATRIX_PRE + (("p = " if pre in ("-", "!", "get ", "typeof ") else "") + pre + a) + "\n"))
+    for post in ["()", "(1)", "[0]", "[\"k\"]", ".n", ".len()", ".nosuch", " or 1", " or nil", ".n = 1", "[0] = 1", "[0] += 1", ".n += 1"]:
+        for a in ATOMS:
+            out.append(("matrix:postfix:%s" % post.strip(), MATRIX_PRE + "q = (%s)%s\n" % (a, post)))
+            if not a.startswith(("[", "(", "-")):
+                out.append(("matrix:postfix-bare:%s" % post.strip(), MATRIX_PRE + "%s%s\n" % (a, post)))
+    return out
+
+
 def enumerated(tier, seed):
     cases = [{"family": "boundary:" + n, "text": t} for n, t in boundary_inputs()]
+    cases += [{"family": n, "text": t} for n, t in matrix_inputs()]
     if tier == "thorough":
         for d in (1200, 2000):
             cases.append({"family": "boundary:paren-depth-%d" % d, "text": "x = " + "(" * d + "1" + ")" * d + "\n"})
@@ -188,12 +217,177 @@ def mutate(g, text):
     return "".join(toks)
 
 
+# ---- near-miss type pairs: a random type T, a structurally close type T', and a value of T' supplied where T is wanted.
+# The diagnostics (and their hints) for every kind of mismatch are built by code that the other families rarely reach.
+PRIMS = ["int", "float", "str", "bool", "byte", "bigint"]
+LIT = {"int": "1", "float": "1.5", "str": "\"a\"", "bool": "true", "byte": "0b1", "bigint": "B1"}
+
+
+def gen_type(g, depth):
+    k = g.weighted([(6, "prim"), (2, "open"), (3, "fixed"), (1, "map"), (2, "opt"), (1, "fn"), (1, "class"), (1, "alias")]) if depth > 0 else "prim"
+    if k == "prim":
+        return ("prim", g.choice(PRIMS))
+    if k == "open":
+        return ("open", gen_type(g, depth - 1))
+    if k == "fixed":
+        return ("fixed", [gen_type(g, depth - 1) for _ in range(g.int(0, 4))])
+    if k == "map":
+        return ("map", ("prim", g.choice(["str", "int", "bool"])), gen_type(g, depth - 1))
+    if k == "opt":
+        return ("opt", gen_type(g, depth - 1))
+    if k == "fn":
+        return ("fn", [gen_type(g, depth - 1) for _ in range(g.int(0, 3))], gen_type(g, depth - 1) if g.chance(70) else None)
+    if k == "class":
+        return ("class", g.choice(["Ka", "Kb"]))
+    return ("alias", g.choice(["Num", "Txt", "Pair"]))
+
+
+def type_text(t):
+    k = t[0]
+    if k == "prim" or k == "class" or k == "alias":
+        return t[1]
+    if k == "open":
+        return "[%s...]" % type_text(t[1])
+    if k == "fixed":
+        return "[%s]" % ", ".join(type_text(x) for x in t[1])
+    if k == "map":
+        return "map[%s, %s]" % (type_text(t[1]), type_text(t[2]))
+    if k == "opt":
+        inner = type_text(t[1])
+        return ("(%s)?" % inner) if t[1][0] == "fn" else inner + "?"
+    return "fn(%s)%s" % (", ".join(type_text(x) for x in t[1]), (" -> " + type_text(t[2])) if t[2] else "")
+
+
+def value_text(g, t, depth=0):
+    k = t[0]
+    if k == "prim":
+        return LIT[t[1]]
+    if k == "class":
+        return t[1] + "()"
+    if k == "alias":
+        return {"Num": "1", "Txt": "\"t\"", "Pair": "[1, 2]"}[t[1]]
+    if k == "open":
+        return "[%s]" % ", ".join(value_text(g, t[1], depth + 1) for _ in range(g.int(0, 3)))
+    if k == "fixed":
+        return "[%s]" % ", ".join(value_text(g, x, depth + 1) for x in t[1])
+    if k == "map":
+        return "map[%s, %s] {%s: %s}" % (type_text(t[1]), type_text(t[2]), value_text(g, t[1], depth + 1), value_text(g, t[2], depth + 1))
+    if k == "opt":
+        return "nil" if g.chance(30) else value_text(g, t[1], depth + 1)
+    params = ", ".join("p%d: %s" % (i, type_text(x)) for i, x in enumerate(t[1]))
+    if t[2] is None:
+        return "fn(%s) { }" % params
+    return "fn(%s) -> %s { return %s }" % (params, type_text(t[2]), value_text(g, t[2], depth + 1))
+
+
+def near(g, t, depth=0):
+    """a type structurally close to t (one edit somewhere inside it)"""
+    k = t[0]
+    choices = ["other"]
+    if k in ("open", "opt"):
+        choices += ["inner", "inner", "unwrap"]
+    if k == "fixed":
+        choices += ["elem", "elem", "drop", "add", "to-open"] if t[1] else ["add"]
+    if k == "map":
+        choices += ["key", "value", "value"]
+    if k == "fn":
+        choices += ["ret", "ret", "param", "arity"]
+    if k in ("prim", "class", "alias"):
+        choices += ["wrap-opt", "wrap-list", "sibling"]
+    c = g.choice(choices)
+    if c == "other":
+        return gen_type(g, 1)
+    if c == "inner":
+        return (k, near(g, t[1], depth + 1))
+    if c == "unwrap":
+        return t[1]
+    if c == "elem":
+        i = g.int(0, len(t[1]) - 1)
+        return ("fixed", [near(g, x, depth + 1) if j == i else x for j, x in enumerate(t[1])])
+    if c == "drop":
+        i = g.int(0, len(t[1]) - 1)
+        return ("fixed", [x for j, x in enumerate(t[1]) if j != i])
+    if c == "add":
+        l = list(t[1])
+        l.insert(g.int(0, len(l)), gen_type(g, 1))
+        return ("fixed", l)
+    if c == "to-open":
+        return ("open", t[1][0])
+    if c == "key":
+        return ("map", ("prim", g.choice(["str", "int", "bool", "float"])), t[2])
+    if c == "value":
+        return ("map", t[1], near(g, t[2], depth + 1))
+    if c == "ret":
+        return ("fn", t[1], near(g, t[2], depth + 1) if t[2] is not None and g.chance(70) else (None if t[2] is not None else gen_type(g, 1)))
+    if c == "param":
+        if not t[1]:
+            return ("fn", [gen_type(g, 1)], t[2])
+        i = g.int(0, len(t[1]) - 1)
+        return ("fn", [near(g, x, depth + 1) if j == i else x for j, x in enumerate(t[1])], t[2])
+    if c == "arity":
+        return ("fn", t[1][:-1] if t[1] and g.chance(50) else t[1] + [gen_type(g, 1)], t[2])
+    if c == "wrap-opt":
+        return ("opt", t)
+    if c == "wrap-list":
+        return ("open", t) if g.chance(50) else ("fixed", [t, gen_type(g, 0)])
+    if k == "prim":
+        return ("prim", g.choice(PRIMS))
+    return gen_type(g, 0)
+
+
+TYPEPAIR_PRE = "class Ka {\n\tn: int\n\tconstructor(self) {\n\t\tself.n = 1\n\t}\n}\nclass Kb {\n\tfn me(self) -> Self {\n\t\treturn self\n\t}\n}\ntype Num int\ntype Txt str\ntype Pair [int...]\n"
+
+
+def gen_typepairs(g):
+    out = [TYPEPAIR_PRE]
+    for i in range(g.int(1, 5)):
+        t = gen_type(g, g.int(1, 3))
+        t2 = near(g, t) if g.chance(85) else t
+        tt, v2, v1 = type_text(t), value_text(g, t2), value_text(g, t)
+        pos = g.choice(["decl", "const-decl", "arg", "reassign", "return", "or", "field", "element", "mapvalue", "compare", "index"])
+        n = "w%d" % i
+        if pos == "decl":
+            out.append("%s: %s = %s" % (n, tt, v2))
+        elif pos == "const-decl":
+            out.append("const %s: %s = %s" % (n, tt, v2))
+        elif pos == "arg":
+            out.append("%s = fn(p: %s) {\n}\n%s(%s)" % (n, tt, n, v2))
+        elif pos == "reassign":
+            out.append("%s: %s = %s\n%s = %s" % (n, tt, v1, n, v2))
+        elif pos == "return":
+            out.append("%s = fn() -> %s {\n\treturn %s\n}" % (n, tt, v2))
+        elif pos == "or":
+            out.append("%s: %s = nil\n%sr = (%s) or %s" % (n, type_text(("opt", t)), n, n, v2))
+        elif pos == "field":
+            out.append("class C%d {\n\tf: %s\n\tconstructor(self) {\n\t\tself.f = %s\n\t}\n}" % (i, tt, v2))
+        elif pos == "element":
+            out.append("%s: [%s...] = [%s, %s]" % (n, tt, v1, v2))
+        elif pos == "mapvalue":
+            out.append("%s = map[str, %s] {\"k\": %s}" % (n, tt, v2))
+        elif pos == "compare":
+            out.append("%s: %s = %s\n%sc = %s %s %s" % (n, tt, v1, n, n, g.choice(["==", "!=", "is", "<", "+"]), v2))
+        else:
+            out.append("%s: %s = %s\n%si = %s[%s]" % (n, tt, v1, n, n, g.choice(["0", "1", "5", "-1", "\"k\"", "true"])))
+    return "\n".join(out) + "\n"
+
+
+def special_idents():
+    """identifier-shaped terminals of the grammar (true, false, nil, self, type names ...): they lex as identifiers in many positions"""
+    rules()
+    return sorted(set(t for t in _terms if re.match(r"^[A-Za-z_][A-Za-z_0-9]*$", t)))
+
+
 @st.composite
 def inputs(draw):
     g = G(draw)
-    fam = g.weighted([(4, "grammar"), (3, "mutant-corpus"), (3, "mutant-generated")])
+    fam = g.weighted([(4, "grammar"), (3, "mutant-corpus"), (3, "mutant-generated"), (4, "typepair")])
+    if fam == "typepair":
+        text = gen_typepairs(g)
+        if g.chance(15):
+            text = mutate(g, text)
+        return {"family": fam, "text": text}
     if fam == "grammar":
-        gen = pestgen.Gen(rules(), g, max_depth=g.int(6, 16))
+        gen = pestgen.Gen(rules(), g, max_depth=g.int(6, 16), special=special_idents())
         n = g.int(1, 6)
         text = "\n".join(gen.gen_rule("declaration", 0, False) for _ in range(n)) + "\n"
         return {"family": fam, "text": text}
